@@ -21,7 +21,7 @@ def jobs(tier, only=None, prefix="C16"):
         if only and op not in only and not (stack and "stack" in only):
             return
         J.append(Job("%s.String.%s.%s" % (prefix, op, name), "C16", "K3", "String/k3.c", "h_" + op, F[op], link=["src/Exception.c", "stubs/throw.c", "stubs/libc_str.c"],
-                     defines=defs, replace_calls=["exception_throw:cv_throw"], unwind=la_max + lb_max + 4, cbmc=["--no-malloc-may-fail"], group="String.%s%s" % (op, ".stack" if stack else ""),
+                     defines=defs, replace_calls=["exception_throw:cv_throw"], unwind=(140 if any(d.startswith("GLEN") for d in defs) else la_max + lb_max + 4), cbmc=["--no-malloc-may-fail"], group="String.%s%s" % (op, ".stack" if stack else ""),
                      also=["C12", "C19", "C14", "C10"], timeout=300, case=" ".join(defs), replay="C16_string.c",
                      bound="String: target length <= %d, operand length <= %d, every byte value except NUL" % (la_max, lb_max)))
     for la in range(0, la_max + 1):
@@ -34,6 +34,8 @@ def jobs(tier, only=None, prefix="C16"):
         add("clear", ["LA=%d" % la], "a%d" % la); add("del", ["LA=%d" % la], "a%d" % la)
         for pos in range(0, la + 1):
             add("format_to", ["LA=%d" % la, "POS=%d" % pos], "a%d.pos%d" % (la, pos))
+    for g in [0, 1, 31, 32, 33, 63, 64, 65, 127, 128, 129]:      # chunk lengths around the usual scratch-buffer sizes
+        add("format_to", ["LA=2", "POS=1", "GLEN=%d" % g], "a2.pos1.len%d" % g)
     for lb in range(0, lb_max + 1):
         add("new", ["LB=%d" % lb], "b%d" % lb)
     for op, defs in [("assign", ["LA=2", "LB=1"]), ("concat", ["LA=2", "LB=1"]), ("resize", ["LA=2", "RESIZE_TO=1"]), ("clear", ["LA=2"]), ("del", ["LA=2"]), ("format_to", ["LA=2", "POS=1"])]:
